@@ -5,9 +5,9 @@ CONSTANTS
   GENS <- GENS_q
   ROTS <- ROTS_id
   MaxDepth = 6
-  FORGET = {}
-  NOCOPY = {"B"}
-  OBJ = "grain"
+  FORGET = {"mt"}
+  NOCOPY = {}
+  OBJ = "tmap"
   ALIASARG = FALSE
   UNWRITTEN = {}
   EmitMode = 0
